@@ -457,6 +457,8 @@ def gen_cw_lines(rng, L, harvested, n):
             continue
         if rng.random() < 0.3:
             sub = gen_cw_lines(rng, L, harvested, 1)
+            while not sub[0].startswith("cw "):
+                sub = gen_cw_lines(rng, L, harvested, 1)
             lines.append("cws %d %s" % (rng.choice((1, 2, 5, 39, 40, 41, 100, 1000)), sub[0][3:]))
             continue
         r = rng.random()
@@ -841,11 +843,11 @@ def main():
     # ---- wire: raw frames to the real server; real client against a scripted peer
     if L:
         hs = [gen_raw_history(rng, L, rng.randrange(20, 80)) for i in range(1200 if thorough else 40)]
-        lines, r = run_stream("raw", hs, False)
+        lines, r = run_stream("raw", hs, True)
         harvested = sorted({o for l, o in zip(lines, r["out_i"]) if l.startswith("raw") and re.fullmatch(r"[0-9a-f]+", o or "")})
         cw = gen_cw_lines(rng, L, harvested, 25000 if thorough else 800)
         cw += big_reply_lines(rng, L, (300001, 1 << 20, (2 << 20) + 17, 5 << 20) if thorough else (300001, 1 << 20))
-        run_stream("cw", [cw], False)
+        run_stream("cw", [cw], True)
     else:
         c.broke("layout", "Gen.layoutStr not found")
     c.extra_cov["fetch_paths_and_ops"] = R.branch_count
